@@ -961,7 +961,9 @@ def rigid_case(j, tf, M, mclass, rng):
     case = {"section": "rigid", "matrix": M.tolist(), "class": mclass}
     run.case("is_rigid", M, mclass)
     L = M[:3, :3]
-    defect = float(np.ptp(L @ L.T - np.eye(3)))
+    # the size of R.R^T - I (not its peak-to-peak value, which is zero for any constant offset:
+    # the monitor had copied that slip of is_rigid, repaired in the library by f4c38f2)
+    defect = float(np.abs(L @ L.T - np.eye(3)).max())
     try:
         got = bool(tf.is_rigid(M))
     except Exception as e:
